@@ -86,6 +86,9 @@ func (j *J) Clone() *J {
 }
 
 func numText(f float64) string {
+	if f == 0 && math.Signbit(f) {
+		return "-0.0"
+	}
 	if f == math.Trunc(f) && math.Abs(f) < 1e15 {
 		return strconv.FormatInt(int64(f), 10)
 	}
